@@ -112,7 +112,7 @@ def killpg(pid, sig=signal.SIGKILL):
 
 
 def run(argv, stdin=None, env=None, cwd=None, timeout=20.0, cap=32 << 20, stdout_path=None, stdin_path=None,
-        quit_dump=False, as_limit=None):
+        quit_dump=False, as_limit=None, linger=0.0):
     """Run argv; stdin is bytes (or None => /dev/null). Returns Result."""
     sc = scratch()
     if env is None:
@@ -159,6 +159,16 @@ def run(argv, stdin=None, env=None, cwd=None, timeout=20.0, cap=32 << 20, stdout
         killpg(p.pid)
         rc = p.wait()
     finally:
+        if linger and not timed_out:
+            # children that mlr does not wait for (the commands behind `tee > | "cmd"` and the tee verb's -p) may still be writing:
+            # give the rest of the process group time to finish before the stragglers are killed
+            t_end = time.time() + linger
+            while time.time() < t_end:
+                try:
+                    os.killpg(p.pid, 0)
+                except (ProcessLookupError, PermissionError):
+                    break
+                time.sleep(0.01)
         killpg(p.pid)  # stragglers of the group (prepipes, system())
         fin.close(); fout.close(); ferr.close()
     wall = time.time() - t0
